@@ -299,7 +299,7 @@ func (d *Diamond) mergeSplits(filePackedC chan<- filePacked, errorC chan<- error
 					default:
 						// report conflict/checkpoint: add conflicting file to the bundle in some special location
 						// (e.g. .conflicts/{splitID}/{path}) and update the key with the newer file
-						existing.NameWithPath = d.deconflicter(splitID, existing.NameWithPath)
+						existing.NameWithPath = d.deconflicter(existing.ID, existing.NameWithPath)
 						d.l.Debug("deconflicting", zap.String("from", file.NameWithPath), zap.String("to", existing.NameWithPath))
 						mergeIndex, _, _ = mergeIndex.Insert([]byte(existing.NameWithPath), existing)
 						// overwrite with new version
